@@ -142,3 +142,15 @@ pub fn panic_message(payload: &(dyn std::any::Any + Send)) -> String {
         "<non-string panic payload>".to_string()
     }
 }
+
+// ---- orphan background workers (a DB::open that failed before the worker got a command) ------
+
+static ORPHAN_EXITS: AtomicU64 = AtomicU64::new(0);
+
+pub fn note_orphan_worker_exit() {
+    ORPHAN_EXITS.fetch_add(1, Ordering::SeqCst);
+}
+
+pub fn orphan_worker_exits() -> u64 {
+    ORPHAN_EXITS.load(Ordering::SeqCst)
+}
